@@ -300,7 +300,14 @@ fn raw_core(which: Which, case: &RawCase) -> CaseOutcome
             let mut d2 = Vec::new();
             no_crash(&fr, "--check with an unreadable file", &mut d2);
             let named = fr.report.unreadable.iter().any(|p| rel_path(p, &sb2.proj()) == *victim);
-            if !named
+            // judged on what THIS run did: the injected failure has to have hit the victim's open/read
+            // (a subject whose operation order varies between runs may meet op k somewhere else)
+            let hit_victim = fr.trace.iter().any(|x| x.inj == "fail" && x.path == vpath && (x.kind == "open" || x.kind == "read"));
+            if !hit_victim
+            {
+                o.class("injected-read-failure-missed-its-file");
+            }
+            else if !named
             {
                 d2.push(dev(
                     "unreadable-file-not-reported",
@@ -311,7 +318,7 @@ fn raw_core(which: Which, case: &RawCase) -> CaseOutcome
             let got = by_file(&fr.report.missing, &sb2.proj());
             for f in &in_scope
             {
-                if f == victim
+                if f == victim || !hit_victim
                 {
                     continue;
                 }
